@@ -12,8 +12,7 @@ class C11(SessionCheck):
     RULE = ('lock-step histories (3 transports x 14 profiles, incl. the five whose reply-namespace check is off) interleaving k '
             'notifications with replies to 0-6 pending requests under arbitrary read segmentation, takes before/after arrival; '
             'plus real-socket sessions (Unix; thorough: TLS) with client threads, blocking and non-blocking takes with measured waits. '
-            'Bursts of 1500+ untaken notifications behind a listener that is slow once, 6000 tiny notifications over SSH, notifications of very different sizes under slow object construction, (re)subscription with queued notifications. '
-            'Non-trivial = history of >= 8 commands / socket run with >= 2 calls; distinct by case.')
+            'Bursts of 1500+ untaken notifications behind a listener that is slow once, 6000 tiny notifications over SSH, notifications of very different sizes under slow object construction, (re)subscription with queued notifications. Non-trivial = history of >= 8 commands / socket run with >= 2 calls; distinct by case.')
 
     def e2e_cases(self, rng, tier):
         n = 6 if tier == 'quick' else 60
